@@ -629,7 +629,10 @@ func runC07(c *vk.Ctx) {
 					kinds = []string{"numrange", "numrange", "daterange", "daterange", "term"}
 					depth = 1
 					nq = nQ / 3
-					if i%8 == 7 { // geo searches are the most expensive ones (thousands of allocating look-ups each)
+					// geo searches are the most expensive ones (thousands of allocating look-ups each; seconds per
+				// search with the planet-scale radii of the thorough tier, which therefore takes every fourth
+				// geo corpus only)
+				if i%8 == 7 && (c.Quick() || i%32 == 7) {
 						kinds = []string{"geobox", "geodist", "geobox", "geodist", "term"}
 						nq = c.Pick(8, 14)
 						depth = 2
